@@ -54,7 +54,7 @@ package react
 //@   modifies state.Messages, elems(state.Messages), fresh()
 //@   ensures[history_extended] @C18 len(state.Messages) == old(len(state.Messages)) + len(input) && forall(i int :: 0 <= i && i < old(len(state.Messages)) ==> state.Messages[i] == old(state.Messages[i])) && forall(i int :: 0 <= i && i < len(input) ==> state.Messages[old(len(state.Messages)) + i] == old(input[i]))
 //@   ensures[model_sees_whole_history] @C18 messageModifier == nil ==> result1 == nil && len(result0) == len(state.Messages) && forall(i int :: 0 <= i && i < len(result0) ==> result0[i] == state.Messages[i])
-//@   at call messageModifier: assert[modifier_gets_a_copy] @C18 fresh(modifiedInput) && len(modifiedInput) == len(state.Messages) && forall(i int :: 0 <= i && i < len(modifiedInput) ==> modifiedInput[i] == state.Messages[i])
+//@   at call messageModifier: assert[modifier_gets_a_copy] @C18 fresh(arg1) && len(arg1) == len(state.Messages) && forall(i int :: 0 <= i && i < len(arg1) ==> arg1[i] == state.Messages[i])
 
 //@ func NewAgent$3
 //@   props C18
